@@ -6,7 +6,7 @@ import json, subprocess
 CLAIMED = {
  "C01": ("proof", "§7 C01",
   "Every function of the runtime interpreter (read, restore, sliceFrom, the three terminal matchers, the 15 composite parse<Kind> functions, parseExpr/parseExprWrap, parseRule*/parseRuleWrap) is verified, in every instantiation of the template produced by the real builder, against a contract whose postcondition is an introduction rule of the PEG judgement D(e,input,i,ok,j,v) written from the property statement (ordered choice, greedy repetition, zero-width predicates, i/^ flags, failure consumes nothing, documented value shapes). Obligations are discharged for symbolic grammars, inputs and parser states, with loop invariants and callee contracts only - no unrolling bound.",
-  "structural induction over the run and determinacy of PEG (meta, DESIGN §12); assumed contracts of utf8.DecodeRune/unicode.*; grammar-literal well-formedness axioms (wf-*) describe what builder.writeExpr emits; left-recursive rules are outside D (C08)"),
+  "structural induction over the run and determinacy of PEG (meta, DESIGN §12); assumed contracts of utf8.DecodeRune/unicode.*; grammar-literal well-formedness axioms (wf-*) describe what builder.writeExpr emits: the emission functions are under contract for the attribute lines the runtime relies on (literal value lower-cased iff case-insensitive, ignoreCase/inverted flags, names, labels, the Basic Latin table computed from the class's own members); left-recursive rules are outside D (C08)"),
  "C02": ("proof", "§7 C02",
   "read() is proved to keep (line, col, offset, rune, width) equal to a pure spec function of (input, offset) (SP); every savepoint ever restored is SP. Call-site obligations before each code-block call state what the block observes (action: matched ==> pos = start, text = matched bytes; predicates/state blocks: current position and empty text); labels: parseLabeledExpr binds label to value in the scope frame, pushV yields an empty frame, stacks are balanced, lower frames keep their identity.",
   "user code blocks read their arguments from the top frame through generated callon* glue (template text, trusted); known findings F2a-c (predicate/state blocks see stale pos/text) are excused only while their witnesses reproduce"),
@@ -15,16 +15,16 @@ CLAIMED = {
   "Cloner.Clone returns an independent copy; user blocks touch only c.state/c.globalStore; sync.Pool hands back only maps that were Put (modelled as fresh-and-empty, justified by the Put precondition 'cleared' and linear use)"),
  "C06": ("proof", "§7 C06",
   "Memo invariant: every entry (node, offset) records a derivable result, a true savepoint and the failure shape; the hit paths of parseExprWrap/parseRuleMemoize/leader prove the same postconditions as the miss paths, entries are never dropped (at-most-once evaluation), left-recursive rules and expressions inside them are never memoized; Debug/Statistics helpers are proved to touch only depth and the statistics maps.",
-  "work bound follows by counting (meta); the cache key omits the label scope (defect F4, demonstrated by a witness, not expressible as a per-function obligation: see DESIGN §9)"),
+  "Debug: the trace depth is proved never negative (strings.Repeat cannot panic) and balanced by every parse function, also on panic paths; the generator side is linked: builder.writeRule is proved to emit the leftRecursive/leader fields from the analysed rule's own flags. Work bound follows by counting (meta); the cache key omits the label scope (defect F4, demonstrated by a witness, not expressible as a per-function obligation: see DESIGN §9)"),
  "C08": ("proof", "§7 C08",
   "parseRuleRecursiveLeader's seed-growing loop is verified with an inductive invariant (seed is a true savepoint, accepted attempts end strictly later, variant len(input)-end), with call-site obligations: each attempt starts at the start mark with the previous result seeded in the memo, a successful first attempt is always accepted, errors and state of the final non-extending attempt are not retained, the final result is memoized; parseRuleWrap's dispatch (leader / member / plain / memoized) is proved per variant.",
-  "equivalence of seed growing with the iterative reading (b)(a)* is the Warth/Medeiros meta-theorem; leader uniqueness per cycle comes from the builder (C19 side)"),
+  "equivalence of seed growing with the iterative reading (b)(a)* is the Warth/Medeiros meta-theorem; generator side: writeRule is proved to emit leader/leftRecursive from the analysed rule, findLeader to pick the least candidate; that the candidate lies on every cycle is a BOUNDED stand-in (all graphs with <= 4 vertices), not a proof"),
  "C11": ("proof", "§7 C11",
   "addErrAt builds exactly the documented prefix (file name, line:col (offset), rule display name or name) and appends a *parserError wrapping the original error; only addErrAt and the leader's snapshot restore write the error list; code-block errors are recorded at the match start / current position and parsing continues; zero-annotation safety obligations (nil, index, slice bounds, nil-map write, type assertion) are discharged in every runtime function.",
-  "parse()'s deferred recover and errList.dedupe are not yet under contract in this revision (listed in DESIGN §13 as open)"),
+  "parse() (deferred recover: a panic becomes the final error iff Recover is on), newParser, setOptions, errList.err/dedupe are under contract as well; user code blocks are assumed to obey their declared call contracts"),
  "C12": ("proof", "§7 C12",
   "failAt is verified against the spec update of the failure record (farthest offset, reset/add/keep of the expected set, '!' prefix under inversion); each terminal matcher performs exactly one such event per evaluation at its start position with its own text; no other function writes the record; parseNotExpr inverts around the operand only and every function restores the inversion flag.",
-  "synthesis of the final message in parse() (sort, dedupe, EOF) not yet under contract"),
+  "the final message is under contract too: in parse() the error is added only when no other error was recorded, at the farthest position, and its expected list is proved (loop invariants over the dedupe map and the arbitrary-order map range, sort.Strings modelled as a sorted permutation) to contain exactly the recorded terminals, sorted, without duplicates, with '!.' shown last as EOF. The farthest position is proved to be the position OF its offset (line and column included) except for known finding F8 (input starting with a newline, farthest failure at offset 0). That the record holds the GLOBAL maximum over the whole run is the induction over the run (meta)."),
  "C14": ("proof", "§7 C14",
   "pushRecovery installs exactly the listed labels bound to the recovery expression; parseRecoveryExpr keeps them in force exactly during the guarded call; parseThrowExpr is verified against the inductive judgement TH (innermost handler first, failed recovery expressions are skipped, no handler = failure without consumption); handler maps in force are never written by any parse function (RecStable).",
   "interaction with the state store is disclaimed by the documentation"),
@@ -39,22 +39,22 @@ CLAIMED = {
   "no schedule is explored; confinement implies race freedom by a standard meta-theorem; sync.Pool is trusted to be goroutine-safe"),
  "C07": ("proof", "§7 C07",
   "Every implementation of InitialNames is verified against one First-set equation per node kind (edges across flagged-nullable prefixes, through & and ! predicates, through both arms of a recovery expression), every IsNullable against the flag it must report, and every NullableVisit against coverage obligations (must-call: each child whose flags InitialNames later reads is visited; a choice visits all alternatives). MakeFirstGraph is proved to build exactly the First edges of every rule, ComputeLeftRecursives to report left recursion exactly when a component has several members or a self-loop, buildParser to turn an analysis error or unsupported left recursion into a build error.",
-  "Tarjan SCC and cycle enumeration (scc.go, recursive closures over maps) are outside the verified subset: their contracts are assumed; 'no cycle in the First graph implies no same-offset re-entry at run time' is Ford's well-formedness theorem (meta). Defects F5a/F5b found by these obligations were repaired by fix: commits."),
+  "Tarjan SCC and cycle enumeration (scc.go, recursive closures over maps) are outside the verified subset: BOUNDED stand-in (labelled bounded, never counted as proved): StronglyConnectedComponents, FindCyclesInSCC and findLeader are run on every directed graph with <= 4 vertices (66066 graphs, several vertex orders, repeated calls) against a transitive-closure oracle by an in-package test injected with go test -overlay. PrepareGrammar is proved to analyse the rule table the generated parser builds (last definition of a name wins on both sides). 'no cycle in the First graph implies no same-offset re-entry at run time' is Ford's well-formedness theorem (meta). The First set of a throw is taken from the property (its handlers' First sets): ThrowExpr.InitialNames returns nothing, known finding F13. Defects F5a/F5b found by these obligations were repaired by fix: commits."),
  "C09": ("other", "§7 C09",
   "Local obligations of the grammar optimizer: cloneExpr returns a fresh node of the same kind for every expression kind (no node shared with the inlined rule), optimizeRule only inlines rules that refer to no other rule and never dereferences an undefined rule, the class/literal merge arms only build unions of non-inverted classes with equal case sensitivity and only concatenate literals of equal case sensitivity, cleanupCharClassMatcher keeps chars/ranges/classes as sets and keeps first occurrences in order.",
-  "the in-place slice surgery of the optimize visitor (aliased backing arrays) is outside the value model of slices: language preservation of the whole rewriting and the label-scope interaction of inlining (defect F7c) are not decided; Walk assumes visitors keep the tree well-formed"),
+  "cloneExpr's copy of a character class is proved to own fresh backing arrays (slice model with backing-array identity), Walk to visit every child of every kind (must-call). The in-place slice surgery of the optimize visitor is outside the value model of slices: language preservation of the whole rewriting and the label-scope interaction of inlining (defect F7c) are not decided; Walk assumes visitors keep the tree well-formed"),
  "C13": ("other", "§7 C13",
   "Zero-annotation safety obligations (nil dereference, index, slice bounds, nil-map write, type assertion, explicit panic) are discharged for Walk, cloneExpr, optimizeRule(s), cleanupCharClassMatcher, every NullableVisit/IsNullable/InitialNames, MakeFirstGraph, ComputeNullables, ComputeLeftRecursives, findLeader, PrepareGrammar, rangeTable, BasicLatinLookup under the AST well-formedness the front-end establishes (which does NOT include 'referenced rules are defined'); buildParser rejects what the analysis rejects.",
-  "main()'s exit paths, the front-end's own parse and termination of the optimizer fixpoint are not under contract; the optimize visitor's slice surgery is outside the subset. Defects F9a/F9b were repaired by fix: commits."),
+  "also under contract: main()'s exit paths (every error path ends in exit(non-zero): argument, parse, build, format, write, close errors; all-calls obligations on exit), every builder function that writes the grammar literal and the code-block methods (writeGrammar/writeRule/writeExpr/write<Kind>/writeFunc/...: no panic on any tree the front-end builds), CharClassMatcher.parse's loops terminate (reader model of strings.Reader assumed), optimizeRule's bookkeeping (a rule's entry is dropped only when its set of referenced rules is empty: the leaf test the inlining relies on). Not under contract: the front-end's own parse (pigeon.go), termination of the optimizer fixpoint and of NullableVisit, writeStaticCode (text/template), the optimize visitor's slice surgery. Defects F9a/F9b/F12 found by these obligations were repaired by fix: commits."),
  "C15": ("proof", "§7 C15",
   "BasicLatinLookup is verified for symbolic chars/ranges/classes of arbitrary length: for case-sensitive classes the table equals the general matching procedure on all 128 runes (loop invariants with quantifiers, no enumeration); for case-insensitive classes every Basic Latin member and both of its case forms are hits; the runtime fast path and the general path of parseCharClassMatcher both satisfy the same class semantics given that table.",
   "known finding F10 (case-insensitive classes: table and general procedure disagree) is excused only inside the region ignoreCase and while its witness reproduces; unicode.Is is uninterpreted, ToLower/ToUpper/IsLower facts on Basic Latin are computed from the toolchain's tables at check time"),
  "C19": ("proof", "§7 C19",
   "Map-order independence of the functions under contract: findLeader's result is proved to be the least element of the candidate set under the arbitrary-enumeration semantics of map range (every iteration order), MakeFirstGraph's result is a function of the rule table, cleanupCharClassMatcher keeps first occurrences in their original order.",
-  "ComputeNullables' flags depend on visit order inside cycles (defect F11, demonstrated in DESIGN §9, not expressible as a discharged obligation); SCC/cycle enumeration order is outside the subset (results are compared as sets by the assumed contract)"),
+  "the optimizer's removal of an unused rule is proved to release every rule it referred to whatever the map order; SCC/cycle enumeration and 'the leader is the same on every run' are a BOUNDED stand-in (all graphs with <= 4 vertices, repeated calls, several vertex orders), labelled bounded. ComputeNullables' flags depend on visit order inside cycles (defect F11, demonstrated in DESIGN §9, not expressible as a discharged obligation)"),
  "C04": ("other", "§7 C04",
   "The static part of 'the emitted file compiles' is decided exhaustively through the real builder: all 32 instantiations of the runtime template (5 booleans) are emitted by builder.BuildParser + imports.Process and type-checked with go/types, and -nolint is shown to change comments only; every Unicode class name the front-end accepts is looked up in the tables of the toolchain in use (rangeTable cannot panic at package initialisation); rangeTable itself is verified; funcName is verified to return \"on\"+rule+itoa(index) and the injectivity of that scheme is posed to z3's string theory (it fails: known finding F3, with the solver's model in the replay file and a compile-error witness); writeExprCode is verified to open a label scope for exactly the expression kinds for which the runtime pushes a variable frame (call-site obligations per recursive call), balanced, with lower scopes untouched.",
-  "'compiles together with the user's package and passes go vet for every grammar' needs Go's static semantics of user code as a specification: not decided. The grammar-dependent part of the emission (var g literal, on*/callon* glue) is printf text whose denotation is trusted; F7c (label clash after inlining) is not decided."),
+  "also decided: the Unicode class name handed to rangeTable is made of exactly the runes between the braces of \\p{...} (ghost-state contract on CharClassMatcher.parse), each code block is rendered once. 'compiles together with the user's package and passes go vet for every grammar' needs Go's static semantics of user code as a specification: not decided. The grammar-dependent part of the emission (var g literal, on*/callon* glue) is printf text whose denotation is trusted (the attribute lines the runtime relies on are proved to carry the node's own attributes); F7c (label clash after inlining) is not decided."),
  "C10": ("proof", "§7 C10",
   "Layer 1 of the design: for every function of the runtime, the optimized and the standard instantiation (and every left-recursion / state / basic-latin combination) are verified against the SAME contract set -- the PEG judgement and value shapes (C01), what code blocks observe (C02), state-store rollback (C05), seed growing (C08), error list contents (C11), failure record (C12), throw/recover (C14), budget (C16), invalid UTF-8 (C17) -- so both are pinned to one functional specification; the variant-specific dispatch of parseRuleWrap is proved to send exactly the leader to the growth loop, members of a cycle past every rule-level memo, and plain rules to parseRule; template arms that exist in only one of the two (Debug/Memoize/Statistics) are proved to touch only depth, the memo and the statistics maps.",
   "relational layer 2 (same value for the same oracle answers of code blocks) is a meta-argument over the shared contracts, not machine-checked; flag wiring in main.go is not under contract"),
